@@ -673,6 +673,19 @@ def estab_cases(rng, tier: str) -> list[dict]:
         for cfg in ({'adj_rib_in': False}, {'adj_rib_in': True}):
             cases.append({'local': h, 'peer': 180, 'arrivals': [k * i for i in range(1, 7)], 'kind': 'update', 'routes': 1, 'cfg': dict(cfg)})
             cases.append({'local': h, 'peer': 180, 'arrivals': [k, 2 * k], 'kind': 'update', 'routes': 0, 'cfg': dict(cfg)})  # ... then silence
+    # a peer that never leaves the main loop an idle iteration: messages less than the 0.1 s read timeout apart for
+    # longer than H/3 (a steady stream of UPDATEs, KEEPALIVEs or ROUTE-REFRESHes).  The KEEPALIVE schedule is about
+    # what ExaBGP *sends*; what it receives meanwhile must not postpone it (seed C12-9).
+    for h, gap, kind in [(3, 60, 'update'), (3, 40, 'keepalive'), (9, 70, 'update'), (6, 90, 'refresh')]:
+        n = (h * 1000 * 5 // 6) // gap
+        cases.append({'local': h, 'peer': 180, 'arrivals': [gap * i for i in range(1, n + 1)], 'kind': kind, 'routes': 0})
+    if tier != 'quick':
+        for _ in range(12):
+            h = rng.choice([3, 4, 6, 9])
+            gap = rng.randrange(20, 100)
+            start = rng.randrange(1, h * 1000)
+            n = (h * 1000 * rng.choice([2, 3, 5]) // 6) // gap
+            cases.append({'local': h, 'peer': rng.choice([h, 180]), 'arrivals': [start + gap * i for i in range(n)], 'kind': rng.choice(['update', 'keepalive', 'refresh']), 'routes': rng.choice([0, 2])})
     if tier != 'quick':
         for _ in range(60):
             h = rng.choice([3, 4, 9, 30])
